@@ -73,7 +73,7 @@ def key_id(kind, keys, k):
 
 # ---------------------------------------------------------------- generators
 
-def gen_stack(rng, kind, leaves):
+def gen_stack(rng, kind, leaves, allow_norm=False):
     """random type-correct wrapper stack, innermost first; returns (wrappers, final kind, final leaves)"""
     ws = []
     depth = rng.randint(1, 4)
@@ -85,7 +85,12 @@ def gen_stack(rng, kind, leaves):
             opts += ["transpose"] * 2
         if kind == "dict":
             opts += ["extract"] * 2
+        if allow_norm and kind == "box" and all(d == F32 for _, d in leaves.values()) and not any(x["w"] == "normalize" for x in ws):
+            opts += ["normalize"] * 3
         w = rng.choice(opts)
+        if w == "normalize":
+            ws.append({"w": "normalize", "norm_obs": rng.random() < 0.8, "norm_reward": rng.random() < 0.6, "clip_obs": rng.choice([1.0, 5.0, 10.0])})
+            continue
         if w == "framestack":
             n = rng.choice([1, 2, 2, 3, 3, 4, 5])
             if kind == "dict" and rng.random() < 0.6:
@@ -116,12 +121,14 @@ def gen_stack(rng, kind, leaves):
     return ws, kind, leaves
 
 
-def gen_case(rng, idx):
+def gen_case(rng, idx, with_norm=False):
     from harness import scripted_envs as se
 
-    base = list(BASES)[idx % len(BASES)]
+    base = ["box1", "box2", "box3"][idx % 3] if with_norm else list(BASES)[idx % len(BASES)]
     kind, leaves = BASES[base]
-    ws, fkind, fleaves = gen_stack(rng, kind, dict(leaves))
+    ws, fkind, fleaves = gen_stack(rng, kind, dict(leaves), allow_norm=with_norm)
+    if with_norm and not any(w["w"] == "normalize" for w in ws):
+        ws.insert(rng.randint(0, len(ws)), {"w": "normalize", "norm_obs": True, "norm_reward": rng.random() < 0.6, "clip_obs": rng.choice([1.0, 5.0, 10.0])})
     n = rng.randint(1, 3)
     scripts = [se.gen_script(rng, n_episodes=rng.randint(1, 4), max_len=rng.choice([2, 4, 6]), tag_base=i * 70, tag_cap=255) for i in range(n)]
     ops = [["reset"]]
@@ -153,7 +160,7 @@ def make_space(base):
 
 def build(case):
     from harness import scripted_envs as se
-    from stable_baselines3.common.vec_env import DummyVecEnv, VecCheckNan, VecExtractDictObs, VecFrameStack, VecMonitor, VecTransposeImage
+    from stable_baselines3.common.vec_env import DummyVecEnv, VecCheckNan, VecExtractDictObs, VecFrameStack, VecMonitor, VecNormalize, VecTransposeImage
 
     fns = [se.make_env_fn(sc, obs_space=make_space(case["base"]), act_kind="discrete", env_id=i) for i, sc in enumerate(case["scripts"])]
     venv = DummyVecEnv(fns)
@@ -166,6 +173,8 @@ def build(case):
             venv = VecExtractDictObs(venv, w["key"])
         elif w["w"] == "monitor":
             venv = VecMonitor(venv)
+        elif w["w"] == "normalize":
+            venv = VecNormalize(venv, norm_obs=w["norm_obs"], norm_reward=w["norm_reward"], clip_obs=w["clip_obs"], clip_reward=2.0, gamma=0.9)
         elif w["w"] == "checknan":
             venv = VecCheckNan(venv, raise_exception=True)
     return venv
@@ -193,6 +202,18 @@ def run_impl(case, ops=None):
         space = venv.observation_space
         per_env = [[] for _ in range(n)]
         bad = []
+        snaps = []
+        vn = venv
+        while vn is not None and type(vn).__name__ != "VecNormalize":
+            vn = getattr(vn, "venv", None)
+
+        def snap():
+            # the normaliser's statistics AFTER this operation (what normalize_obs / normalize_reward used)
+            if vn is not None:
+                snaps.append({"mean": np.array(vn.obs_rms.mean) if vn.norm_obs else None, "var": np.array(vn.obs_rms.var) if vn.norm_obs else None, "rvar": float(vn.ret_rms.var),
+                              "eps": float(vn.epsilon), "clip_reward": float(vn.clip_reward)})
+            else:
+                snaps.append(None)
 
         def check(o, where):
             try:
@@ -207,12 +228,14 @@ def run_impl(case, ops=None):
             for k, op in enumerate(ops):
                 if op[0] == "reset":
                     obs = venv.reset()
+                    snap()
                     for i in range(n):
                         o = _one(obs, i)
                         check(o, f"op {k} reset env {i}")
                         per_env[i].append(("reset", o))
                 else:
                     obs, rews, dones, infos = venv.step(np.array([a % 4 for a in op[1]]))
+                    snap()
                     for i in range(n):
                         o = _one(obs, i)
                         check(o, f"op {k} step env {i}")
@@ -223,7 +246,7 @@ def run_impl(case, ops=None):
                         per_env[i].append(("step", o, float(rews[i]) * 4, bool(dones[i]), infos[i].get("TimeLimit.truncated"), term))
         finally:
             venv.close()
-    return {"per_env": per_env, "inspace": bad, "declared": space}
+    return {"per_env": per_env, "inspace": bad, "declared": space, "snaps": snaps}
 
 
 def rle(arr):
@@ -284,10 +307,14 @@ def oracle(case, impl, ops=None):
         fr = [np.zeros_like(fr[0])] * (n - len(fr)) + fr
         return np.concatenate(fr, axis=0 if cf else -1)
 
+    has_norm = any(w["w"] == "normalize" for w in case["wrappers"])
+
     def same(a, b):
         if isinstance(a, dict) or isinstance(b, dict):
             return isinstance(a, dict) and isinstance(b, dict) and sorted(a) == sorted(b) and all(same(a[k], b[k]) for k in a)
         a, b = np.asarray(a), np.asarray(b)
+        if has_norm:  # float arithmetic of the normaliser: toleranced
+            return a.shape == b.shape and a.dtype == b.dtype and np.allclose(a, b, rtol=1e-5, atol=1e-6)
         return a.shape == b.shape and a.dtype == b.dtype and np.array_equal(a, b)
 
     for i in range(case["n"]):
@@ -296,7 +323,7 @@ def oracle(case, impl, ops=None):
         # per frame-stack layer: the observations this layer has received during the current episode
         frames = [dict() for _ in case["wrappers"]]
 
-        def through(obs, mode, term_flag=False):
+        def through(obs, mode, snap=None):
             """push one observation through the layers. mode: 'reset' (episode starts here), 'step' (ordinary),
             'terminal' (last observation of the episode that ends: shown, but the new episode's list is kept)"""
             for li, w in enumerate(case["wrappers"]):
@@ -318,15 +345,19 @@ def oracle(case, impl, ops=None):
                         obs = np.transpose(obs, (2, 0, 1))
                 elif w["w"] == "extract":
                     obs = obs[w["key"]]
+                elif w["w"] == "normalize" and w["norm_obs"]:
+                    # one function for observations and terminal observations, statistics after this step's update
+                    obs = np.clip((obs - snap["mean"]) / np.sqrt(snap["var"] + snap["eps"]), -w["clip_obs"], w["clip_obs"]).astype(np.float32)
             return obs
 
         evs = impl["per_env"][i]
         for k, (op, ev) in enumerate(zip(ops, evs)):
             where = f"op {k} ({op[0]}) env {i}"
+            snap = impl["snaps"][k] if impl.get("snaps") else None
             if op[0] == "reset":
                 ep_idx += 1
                 pos = 0
-                want = through(base_obs(eps[ep_idx % len(eps)]["reset_tag"]), "reset")
+                want = through(base_obs(eps[ep_idx % len(eps)]["reset_tag"]), "reset", snap)
                 if not same(ev[1], want):
                     probs.append(("oracle-reset-observation", f"{where}: reset observation is not zeros + first frame"))
             else:
@@ -334,17 +365,21 @@ def oracle(case, impl, ops=None):
                 st = ep["steps"][pos]
                 ends = pos == len(ep["steps"]) - 1
                 _, obs, r4, done, tl, term = ev
-                if r4 != st["r4"]:
-                    probs.append(("oracle-reward-passthrough", f"{where}: reward*4 {r4} != base {st['r4']}"))
+                want_r4 = float(st["r4"])
+                for w in case["wrappers"]:
+                    if w["w"] == "normalize" and w["norm_reward"]:   # rewards are transformed by the normaliser only
+                        want_r4 = 4.0 * float(np.clip((want_r4 / 4.0) / np.sqrt(snap["rvar"] + snap["eps"]), -snap["clip_reward"], snap["clip_reward"]))
+                if abs(r4 - want_r4) > (1e-4 if has_norm else 0):
+                    probs.append(("oracle-reward-normaliser-only" if has_norm else "oracle-reward-passthrough", f"{where}: reward*4 {r4} != expected {want_r4}"))
                 if done != ends:
                     probs.append(("oracle-done-passthrough", f"{where}: done {done} != base {ends}"))
                 if tl != bool(st["trunc"] and not st["term"]):
                     probs.append(("oracle-truncation-passthrough", f"{where}: TimeLimit.truncated {tl} != base"))
                 if ends:
-                    want_term = through(base_obs(st["tag"]), "terminal")
+                    want_term = through(base_obs(st["tag"]), "terminal", snap)
                     ep_idx += 1
                     pos = 0
-                    want = through(base_obs(eps[ep_idx % len(eps)]["reset_tag"]), "reset")
+                    want = through(base_obs(eps[ep_idx % len(eps)]["reset_tag"]), "reset", snap)
                     if term is None or not same(term, want_term):
                         short = any(w["w"] == "framestack" and w["n"] > len(ep["steps"]) + 1 for w in case["wrappers"])
                         probs.append(("oracle-terminal-observation" + ("-short-episode" if short else ""), f"{where}: terminal_observation is not the stack/transform of the finished episode's last frames"))
@@ -352,7 +387,7 @@ def oracle(case, impl, ops=None):
                         probs.append(("oracle-observation-after-episode-end", f"{where}: observation after an episode end is not zeros + first frame of the new episode"))
                 else:
                     pos += 1
-                    want = through(base_obs(st["tag"]), "step")
+                    want = through(base_obs(st["tag"]), "step", snap)
                     if not same(obs, want):
                         probs.append(("oracle-stacked-observation", f"{where}: observation is not the zero-padded last frames of the current episode"))
     for wbad in impl["inspace"][:3]:
@@ -429,6 +464,134 @@ def diff_model(impl_trace, model):
     return []
 
 
+
+# ---------------------------------------------------------------- vec_env/__init__.py: unwrap_vec_wrapper, is_vecenv_wrapped, sync_envs_normalization
+
+SYNC_HEADER = """From Coq Require Import List ZArith Bool.
+From SB3V Require Import Model.EnvUtil.
+Import ListNotations.
+"""
+VEC_CLASSES = ["VecNormalize", "VecMonitor", "VecCheckNan", "VecFrameStack"]
+
+
+def run_sync_stream(chk, n_cases):
+    import warnings
+
+    import numpy as np
+
+    from harness import scripted_envs as se
+    from harness.common import coq_bool, coq_list, coq_nat, coq_option, coq_Z
+    from stable_baselines3.common import vec_env as V
+
+    rng = chk.rng
+    script = {"episodes": [{"reset_tag": 1, "reset_info": 0, "steps": [{"tag": 2, "r4": 0, "term": True, "trunc": False, "info": 0}]}]}
+
+    def gen_chain():
+        return [{"cls": rng.choice(VEC_CLASSES), "norm_obs": rng.random() < 0.6} for _ in range(rng.randint(0, 4))]
+
+    def build(chain, tag0):
+        """chain is outermost first; returns (venv, wrapper objects outermost first); VecNormalize statistics carry distinct tags"""
+        venv = V.DummyVecEnv([se.make_env_fn(script, obs_kind="box1", act_kind="discrete")])
+        objs = []
+        for j, l in reversed(list(enumerate(chain))):
+            if l["cls"] == "VecNormalize":
+                venv = V.VecNormalize(venv, norm_obs=l["norm_obs"])
+                if l["norm_obs"]:
+                    venv.obs_rms.mean = np.full_like(venv.obs_rms.mean, tag0 + 10 * j)
+                venv.ret_rms.mean = float(tag0 + 10 * j + 1)
+            elif l["cls"] == "VecMonitor":
+                venv = V.VecMonitor(venv)
+            elif l["cls"] == "VecCheckNan":
+                venv = V.VecCheckNan(venv)
+            else:
+                venv = V.VecFrameStack(venv, 2)
+            objs.insert(0, venv)
+        return venv, objs
+
+    def tags(objs):
+        out = []
+        for o in objs:
+            if isinstance(o, V.VecNormalize):
+                # the level's OWN attribute (hasattr would be forwarded to inner wrappers by VecEnvWrapper.__getattr__)
+                ob = int(np.asarray(o.__dict__["obs_rms"].mean).reshape(-1)[0]) if "obs_rms" in o.__dict__ else None
+                out.append(["N", ob, int(o.ret_rms.mean)])
+            else:
+                out.append(["O", type(o).__name__])
+        return out
+
+    def coq_chain(chain, tag0, effective=False):
+        """effective: what `hasattr(level, "obs_rms")` / `level.obs_rms` see on the TRAINING side: a VecNormalize without its own
+        obs_rms (norm_obs=False) forwards the lookup to the inner wrappers (VecEnvWrapper.__getattr__, C01 model VecAttr):
+        exactly one inner holder -> its statistics, none or several (ambiguous -> AttributeError) -> no attribute"""
+        items = []
+        for j, l in enumerate(chain):
+            if l["cls"] == "VecNormalize":
+                own = tag0 + 10 * j if l["norm_obs"] else None
+                if own is None and effective:
+                    holders = [tag0 + 10 * i for i, x in enumerate(chain) if i > j and x["cls"] == "VecNormalize" and x["norm_obs"]]
+                    own = holders[0] if len(holders) == 1 else None
+                items.append(f"LNorm ({coq_option(own, coq_Z)}, {coq_Z(tag0 + 10 * j + 1)})")
+            else:
+                items.append(f"LOther {coq_Z(VEC_CLASSES.index(l['cls']))}")
+        return coq_list(items)
+
+    exprs, expected = [], []
+    stats = {"sync": 0, "sync_assertion": 0, "unwrap": 0}
+    with warnings.catch_warnings():
+        warnings.simplefilter("ignore")
+        for _ in range(n_cases):
+            train = gen_chain()
+            if rng.random() < 0.6:
+                ev = [dict(l, norm_obs=(l["norm_obs"] if rng.random() < 0.7 else not l["norm_obs"])) for l in train] + (gen_chain()[:1] if rng.random() < 0.2 else [])
+            else:
+                ev = gen_chain()
+            tv, tobjs = build(train, 100)
+            evv, eobjs = build(ev, 500)
+            try:
+                try:
+                    V.sync_envs_normalization(tv, evv)
+                    got = tags(eobjs)
+                except AssertionError:
+                    got = None
+                    stats["sync_assertion"] += 1
+                # unwrap_vec_wrapper / is_vecenv_wrapped on the training chain
+                q = rng.choice(VEC_CLASSES)
+                u = V.unwrap_vec_wrapper(tv, getattr(V, q))
+                pos = None if u is None else next(j for j, o in enumerate(tobjs) if o is u)
+                got_u = [pos, bool(V.is_vecenv_wrapped(tv, getattr(V, q)))]
+            finally:
+                tv.close()
+                evv.close()
+            exprs.append(f"sync_chain copy_tags {coq_chain(train, 100, effective=True)} {coq_chain(ev, 500)}")
+            expected.append(("sync", {"train": train, "eval": ev}, got))
+            inst = [l["cls"] == q for l in train]
+            exprs.append(f"(unwrap (fun p => nth p {coq_list(inst, coq_bool)} false) (seq 0 {coq_nat(len(train))}), is_wrapped (fun p => nth p {coq_list(inst, coq_bool)} false) (seq 0 {coq_nat(len(train))}))")
+            expected.append(("unwrap", {"chain": [l["cls"] for l in train], "query": q}, got_u))
+            stats["sync"] += 1
+            stats["unwrap"] += 1
+    vals = common.coq_eval_many("C17s", SYNC_HEADER, exprs, shard=200, procs=4)
+
+    def opt(x):
+        return x[1] if isinstance(x, tuple) and x and x[0] == "Some" else None
+
+    for (kind, case, got), v in zip(expected, vals):
+        if kind == "sync":
+            r = opt(v)
+            model = None if r is None else [(["N", opt(l[1][0]), l[1][1]] if l[0] == "LNorm" else ["O", VEC_CLASSES[l[1]]]) for l in r]
+            if got != model:
+                what = "assertion" if (got is None) != (model is None) else "statistics-not-copied-at-every-level"
+                chk.violation(f"oracle-sync-envs-normalization-{what}", f"train {[l['cls'] for l in case['train']]} eval {[l['cls'] for l in case['eval']]}: eval levels after sync {got} expected {model}",
+                              {"sync_case": case, "real": got, "model": model}, found_input=True)
+                return stats
+        else:
+            model = [opt(v[0]), bool(v[1])]
+            if got != model:
+                chk.violation("oracle-unwrap-vec-wrapper-outermost", f"unwrap_vec_wrapper on {case['chain']} for {case['query']}: real {got} expected {model}",
+                              {"unwrap_case": case, "real": got, "model": model}, found_input=True)
+                return stats
+    return stats
+
+
 # ---------------------------------------------------------------- driver
 
 def shrink(case, sig):
@@ -463,13 +626,19 @@ def main():
     n_gen = 350 if chk.tier == "quick" else 4000
     for k in range(n_gen):
         cases.append(gen_case(chk.rng, k))
+    n_norm = 80 if chk.tier == "quick" else 800
+    for k in range(n_norm):   # stacks that contain VecNormalize: numpy oracle only (statistics are C15's)
+        cases.append(gen_case(chk.rng, k, with_norm=True))
     impls = []
     for c in cases:
         try:
             impls.append(run_impl(c))
         except Exception as e:  # noqa: BLE001
             impls.append({"crash": f"{type(e).__name__}: {e}"})
-    vals = common.coq_eval_many("C17", HEADER, [coq_case(c) for c in cases], shard=80, procs=4)
+    has_norm = [any(w["w"] == "normalize" for w in c["wrappers"]) for c in cases]
+    mv = common.coq_eval_many("C17", HEADER, [coq_case(c) for c, hn in zip(cases, has_norm) if not hn], shard=80, procs=4)
+    it = iter(mv)
+    vals = [None if hn else next(it) for hn in has_norm]
     hist = {"base": {}, "wrappers": {}, "depth": {}, "n_stack": {}, "n_envs": {}, "episode_ends": 0, "events": 0, "terminal_checked": 0}
     distinct = set()
     for c, im, v in zip(cases, impls, vals):
@@ -489,7 +658,7 @@ def main():
         if nontrivial(c, im):
             distinct.add(json.dumps([c["base"], c["wrappers"], c["scripts"], c["ops"]], sort_keys=True, default=str))
         op = oracle(c, im)
-        dm = diff_model(canon_trace(im["per_env"]), model_trace(v))
+        dm = diff_model(canon_trace(im["per_env"]), model_trace(v)) if v is not None else []
         if op:
             sig = op[0][0]
             small = shrink(c, sig)
@@ -502,8 +671,10 @@ def main():
             chk.violation(f"model-correspondence-{dm[0][0]}", dm[0][1],
                           {"case": c, "problems": [list(p) for p in dm], "correspondence": "harness/c17.py vs Model.Wrappers.run_wrapped_scripted"}, found_input=False)
             break
-    chk.coverage["evaluations"] = len(cases)
-    chk.coverage["traces_validated_against_impl"] = len(cases)
+    sync_stats = run_sync_stream(chk, 100 if chk.tier == "quick" else 1000) if not chk.violations else {}
+    chk.notes["sync_and_unwrap_stream"] = sync_stats
+    chk.coverage["evaluations"] = len(cases) + sync_stats.get("sync", 0) + sync_stats.get("unwrap", 0)
+    chk.coverage["traces_validated_against_impl"] = len(cases) + sync_stats.get("sync", 0) + sync_stats.get("unwrap", 0)
     chk.coverage["distinct_nontrivial"] = len(distinct)
     chk.coverage["rule"] = ("random type-correct wrapper stacks (depth 1-4; VecFrameStack n_stack 1-5 with channels_order None/first/last or per key, VecTransposeImage incl. skip, "
                             "VecExtractDictObs, VecMonitor, VecCheckNan) over DummyVecEnv (n_envs 1-3) of scripted envs cycling through 9 base spaces (Box rank 1-3, HWC/CHW images, 3 Dict "
@@ -516,6 +687,8 @@ def main():
         "channels_order=None is resolved by the documented rule (image: channel axis = smallest dimension, first index wins; else last) in the harness, not read from the wrapper",
         "frames are constant-filled with a non-zero tag (zero = padding); the per-kind numpy code is tied to the model cell by cell on these inputs only",
         "aliasing of the returned arrays (C19) and VecMonitor episode statistics (C18) are not decided here",
+        "stacks containing VecNormalize are checked against the numpy oracle only (flags unchanged, rewards transformed by the normaliser only, observations and terminal "
+        "observations through one function with the statistics after the step, rel 1e-5); the statistics themselves are C15's",
     ]
     return chk.finish()
 
@@ -525,7 +698,10 @@ def replay(path):
     case = d["replay"]["case"]
     im = run_impl(case)
     probs = oracle(case, im)
-    v = common.coq_eval_many("C17r", HEADER, [coq_case(case)])[0]
-    dm = diff_model(canon_trace(im["per_env"]), model_trace(v))
+    if any(w["w"] == "normalize" for w in case["wrappers"]):
+        dm = []
+    else:
+        v = common.coq_eval_many("C17r", HEADER, [coq_case(case)])[0]
+        dm = diff_model(canon_trace(im["per_env"]), model_trace(v))
     print(json.dumps({"oracle_problems": probs, "model_diff": dm}, indent=1, default=str))
     return 1 if (probs or dm) else 0
